@@ -12,7 +12,15 @@ open Afkak.ClientNet Afkak.ClientCache
     close, the close Deferred fires exactly once and not before the last broker client (including ones closed by
     an earlier refresh) has gone, metadata stays cleared - for well-formed runs (fresh operation ids: a second
     `close()` is another operation; the environment answered every question: no `badOp`; no fuel exhaustion).
-    Evaluated (not proved) on the model trace of every scenario the harness generates (`mon-c20-model`). -/
+    Evaluated (not proved) on the model trace of every scenario the harness generates (`mon-c20-model`).
+    PROVED so far, on the model (AfkakProps/C20.lean): the `connFails` rules (`C20_model_traces_satisfy_monitor_partial`);
+    on the model STATE what the other rules rest on: every broker client ever created is told to close
+    (`C20_close_closes_every_broker_client`), no request is pending after close and late completions are discarded
+    (`C20_no_request_pending_after_close`, `C20_completions_after_close_discarded`), the metadata is and stays cleared
+    (`C20_metadata_stays_cleared` = the three `dump` rules), loads / sends / coordinator lookups started after close fail
+    inside the call (`C20_load_after_close_fails_at_once`, `C20_send_after_close_fails_at_once`, `…_partial` for
+    cload/srtc).  NOT proved: every pending OPERATION's Deferred fires in the close step; the close Deferred fires exactly
+    once and not before the last `down` (the Agg/closeWait machinery). -/
 def C20_model_traces_satisfy_monitor : Prop :=
   ∀ (cfg : Cfg) (evs : List (Env × Ev)), WellFormedRun cfg evs → NoFuel cfg {} evs →
     Afkak.Monitor.C20.ok (traceOf cfg {} evs) = true
